@@ -12,7 +12,7 @@ for d in /verif/selftest/mutants/*.diff; do
   git -C $ISO/repo checkout -q -- .
   git -C $ISO/repo apply $d || { echo -e "$name\tAPPLY-FAILED" >> $OUT; continue; }
   if [ -z "${SKIP_SUITE:-}" ]; then
-    suite=$(cd $ISO/repo && cargo nextest run --workspace --no-fail-fast --offline 2>&1 | grep -E "Summary|error: could not compile" | tail -1 | sed 's/.*Summary \[[^]]*\] *//' | cut -c1-60)
+    suite=$(cd $ISO/repo && timeout 600 cargo nextest run --workspace --no-fail-fast --offline 2>&1 | grep -E "Summary|error: could not compile" | tail -1 | sed 's/.*Summary \[[^]]*\] *//' | cut -c1-60)
   else suite="(not run)"; fi
   for ID in $props; do
     o=$(cd $ISO/verif && GV_ROOT=$ISO/verif ./check $ID quick 2>&1); rc=$?
